@@ -34,13 +34,66 @@ def advance(n):
             ufl.Constant(m)
 
 
-KINDS = ["coef-only", "one-const", "consts", "two-mesh", "mixed", "indices", "variables", "args", "multi-mesh"]
+KINDS = ["coef-only", "one-const", "consts", "two-mesh", "mixed", "indices", "variables", "args", "multi-mesh",
+         "intersect", "derivative", "multi-contraction"]
+
+
+def P(deg=1, sh=()):
+    return elements.LagrangeElement(ufl.triangle, deg, tuple(sh))
+
+
+def special(kind, rng):
+    """Forms that do not use the expression generator: multi-domain integrals with intersect measures,
+    unexpanded Gateaux derivatives w.r.t. tuples of coefficients whose counts are the first of the process
+    (so that they straddle a power of ten in several configurations), subscripts contracting several
+    distinct indices."""
+    if kind == "derivative":
+        m = ufl.Mesh(P(1, (2,)))
+        V, Q = ufl.FunctionSpace(m, P(1)), ufl.FunctionSpace(m, P(2))
+        cs = [ufl.Coefficient(rng.choice([V, Q])) for _ in range(3)]     # counts adv, adv+1, adv+2
+        u, p, r = cs
+        v = ufl.TestFunction(V)
+        F = (u ** 2 * p * r * v + p * ufl.inner(ufl.grad(u), ufl.grad(v)) + ufl.sin(r) * u * v) * ufl.dx(domain=m)
+        order = list(cs)
+        rng.shuffle(order)
+        sub = tuple(order[:2 + rng.randrange(2)])
+        J = ufl.derivative(F, sub)
+        if rng.random() < 0.5:
+            J = J + ufl.derivative(F, (p, u))
+        return J
+    if kind == "intersect":
+        ms = [ufl.Mesh(P(1, (2,))) for _ in range(3)]
+        V0, V1, V2 = (ufl.FunctionSpace(mm, P(1 + n % 2)) for n, mm in enumerate(ms))
+        u, v = ufl.TrialFunction(V1), ufl.TestFunction(V0)
+        f, g = ufl.Coefficient(V0), ufl.Coefficient(V2)
+        dx01 = ufl.Measure("dx", ms[0], intersect_measures=(ufl.Measure("dx", ms[1]),))
+        form = f * ufl.inner(u, v) * dx01
+        if rng.random() < 0.7:
+            dx012 = ufl.Measure("dx", ms[0], intersect_measures=(ufl.Measure("dx", ms[1]), ufl.Measure("dx", ms[2])))
+            form = form + f * g * u * v * dx012
+        return form
+    if kind == "multi-contraction":
+        m = ufl.Mesh(P(1, (2,)))
+        T4 = ufl.Coefficient(ufl.FunctionSpace(m, P(1, (2, 2, 2, 2))))
+        T6 = ufl.Coefficient(ufl.FunctionSpace(m, P(1, (2,) * 6)))
+        S = ufl.Coefficient(ufl.FunctionSpace(m, P(2, (2, 2))))
+        v = ufl.TestFunction(ufl.FunctionSpace(m, P(1)))
+        i, j, k = ufl.indices(3)
+        i2, j2, k2 = ufl.indices(3)
+        terms = [T4[i, i, j, j], S[i, j].dx(i, j), T6[i, i, j, j, k, k], T6[k2, j2, i2, i2, j2, k2], T4[j2, i2, i2, j2]]
+        rng.shuffle(terms)
+        e = terms[0] + terms[1] * terms[2] + terms[3]
+        return e * v * ufl.dx(domain=m)
+    raise ValueError(kind)
+
 
 
 def build(k, seed):
     """Form number k.  The kind decides which terminal pools the integrands may use."""
     rng = random.Random(seed * 100003 + k)
     kind = KINDS[k % len(KINDS)]
+    if kind in ("intersect", "derivative", "multi-contraction"):
+        return kind, special(kind, rng)
     w = L.World(nconst=12)
     w.args = {(): w.args[()][:2], (2,): [], (2, 2): []}     # one test and one trial space per form
     # restrict the pools according to the kind (the class of the known finding needs >= 2 constants
@@ -142,6 +195,9 @@ def report(k, seed):
 
 def main():
     adv, n, seed = int(sys.argv[1]), int(sys.argv[2]), int(sys.argv[3])
+    import gc
+    gc.disable()
+    gc.freeze()        # keep the forked children from touching (copying) the parent's heap
     out = []
     for k in range(n):
         r, wfd = os.pipe()
